@@ -1,0 +1,56 @@
+//go:build verif
+
+package ecs
+
+// Contracts for lock.go (world lock as a set of outstanding lock bits).
+//
+// lockInv: the set bits of m.locks are exactly the bits the pool has issued.
+
+//@ pred lockInv(m *lock) :=
+//@      bitPoolInv(&m.bitPool)
+//@   && (forall b uint8 :: bitIssued(&m.bitPool, b) == m64has(m.locks, b))
+
+//@ func (*lock).Lock
+//@   serves C07
+//@   requires lockInv(m)
+//@   panics   m.locks.bits == 0xffffffffffffffff
+//@   ensures  inv: lockInv(m)
+//@   ensures  fresh: result < 64 && !old(m64has(m.locks, result))
+//@   ensures  added: forall i uint8 :: m64has(m.locks, i) == (old(m64has(m.locks, i)) || i == result)
+//@   xpure
+
+//@ func (*lock).Unlock
+//@   serves C07
+//@   requires lockInv(m) && l < 64
+//@   panics   !m64has(m.locks, l)
+//@   ensures  inv: lockInv(m)
+//@   ensures  removed: forall i uint8 :: m64has(m.locks, i) == (old(m64has(m.locks, i)) && i != l)
+//@   xpure
+
+//@ func (*lock).LockSafe
+//@   serves C07 C13
+//@   requires lockInv(m)
+//@   panics   m.locks.bits == 0xffffffffffffffff
+//@   ensures  inv: lockInv(m)
+//@   ensures  fresh: result < 64 && !old(m64has(m.locks, result))
+//@   ensures  added: forall i uint8 :: m64has(m.locks, i) == (old(m64has(m.locks, i)) || i == result)
+//@   xpure
+
+//@ func (*lock).UnlockSafe
+//@   serves C07 C13
+//@   requires lockInv(m) && l < 64
+//@   panics   !m64has(m.locks, l)
+//@   ensures  inv: lockInv(m)
+//@   ensures  removed: forall i uint8 :: m64has(m.locks, i) == (old(m64has(m.locks, i)) && i != l)
+//@   xpure
+
+//@ func (*lock).IsLocked
+//@   serves C07
+//@   ensures  value: result == (exists i uint8 :: m64has(m.locks, i))
+//@   modifies nothing
+
+//@ func (*lock).Reset
+//@   serves C07 C16
+//@   requires len(m.bitPool.bits) == 64
+//@   ensures  inv: lockInv(m)
+//@   ensures  unlocked: forall i uint8 :: !m64has(m.locks, i)
